@@ -45,7 +45,7 @@ struct Explorer {
   double tau = 1e-6;
   long nonrobust = 0;
   bool in_sweep = false;
-  long execs = 0, model_runs = 0, mism = 0, amb = 0, horizon = 0, edges = 0, nthr = 0, validated = 0, san = 0;
+  long execs = 0, model_runs = 0, mism = 0, amb = 0, horizon = 0, both_horizon = 0, edges = 0, nthr = 0, validated = 0, san = 0;
   long ccap = 200000;
   bool ccap_hit = false;
   double deadline = 1e18;
@@ -197,6 +197,14 @@ struct Explorer {
     }
     if (use_inv) {
       std::string w = check_c04(cfg, o.p, inv);
+      // under a squeezed default stream a rejection loop whose acceptance region the squeeze excludes turns for ever on both
+      // sides: the model decides whether a horizon is the reference's own (not judged, counted) or the port's alone
+      // (and only a model execution whose every decision margin is clear binds the port to the same path: a horizon on the
+      //  port alone after a non-robust model execution is a rejection loop entered through a near-tie - not judged, counted)
+      if (o.p.horizon && use_ref && R.available && !(vx::SQ_LO == 0.0 && vx::SQ_HI == 1.0)) {
+        if (o.r.horizon) { w.clear(); both_horizon++; }
+        else if (!o.robust) { w.clear(); amb++; }
+      }
       if (!w.empty()) add_violation("c04", w, f, o.margin);
       w = check_c03(cfg, o.p, P, inv);
       if (!w.empty()) add_violation("c03", w, f, o.margin);
@@ -399,7 +407,7 @@ struct Explorer {
       bool computed = false;
       if (!roots.empty()) {
         Forced b1 = base;
-        double cur = base.count(i - 1) ? base.at(i - 1) : vx::stream_value(PHASE, i - 1);
+        double cur = base.count(i - 1) ? base.at(i - 1) : vx::squeezed_value(PHASE, i - 1);
         b1[i - 1] = cur < 0.5 ? cur + 0.37 : cur - 0.37;
         auto alt = discover(b1, i);
         if (alt.size() != roots.size()) computed = true;
@@ -630,7 +638,8 @@ struct Opts {
 static std::string cfg_json(const Config & c)
 {
   return "{\"cat\":" + jstr(c.cat) + ",\"name\":" + jstr(c.name) + ",\"level\":" + std::to_string(c.level) + ",\"mode\":" + std::to_string(c.mode) + ",\"e1\":"
-         + jnum(c.e1) + ",\"e2\":" + jnum(c.e2) + (c.hist.empty() ? std::string() : ",\"hist\":" + jstr(c.hist)) + "}";
+         + jnum(c.e1) + ",\"e2\":" + jnum(c.e2) + (c.hist.empty() ? std::string() : ",\"hist\":" + jstr(c.hist)) + (c.pre_raw.empty() ? std::string() : ",\"pre\":" + jstr(c.pre_raw))
+         + ((vx::SQ_LO == 0.0 && vx::SQ_HI == 1.0) ? std::string() : ",\"squeeze\":\"" + jnum(vx::SQ_LO) + "," + jnum(vx::SQ_HI) + "\"") + "}";
 }
 
 static std::string run_config(const Config & c, const Opts & o)
@@ -745,7 +754,7 @@ static std::string run_config(const Config & c, const Opts & o)
   }
   js << ",\"table_rel\":" << jnum(table_rel) << ",\"tau\":" << jnum(X.tau) << ",\"toall_port\":" << jnum(X.P.toall) << ",\"toall_ref\":" << jnum(X.R.toall) << ",\"qbb\":" << jnum(X.P.qbb) << ",\"ek\":" << jnum(X.P.ek) << ",\"edlevel\":" << jnum(X.P.edlevel) << ",\"zdbb\":" << jnum(X.P.zdbb) << ",\"init_draws\":" << X.P.init_draws;
   js << ",\"states\":" << X.expanded.size() << ",\"transitions\":" << X.edges << ",\"thresholds\":" << X.nthr << ",\"executions\":" << X.execs << ",\"model_runs\":" << X.model_runs
-     << ",\"sweep_execs\":" << X.sweep_execs << ",\"validated\":" << X.validated << ",\"distinct\":" << X.sigs.size() << ",\"mismatches\":" << X.mism << ",\"ambiguous\":" << X.amb << ",\"nonrobust\":" << X.nonrobust << ",\"horizon\":" << X.horizon
+     << ",\"sweep_execs\":" << X.sweep_execs << ",\"validated\":" << X.validated << ",\"distinct\":" << X.sigs.size() << ",\"mismatches\":" << X.mism << ",\"ambiguous\":" << X.amb << ",\"nonrobust\":" << X.nonrobust << ",\"horizon\":" << X.horizon << ",\"both_horizon\":" << X.both_horizon
      << ",\"san_reports\":" << X.san << ",\"max_draws\":" << X.inv.max_draws << ",\"max_np\":" << X.inv.max_np << ",\"max_kin\":" << jnum(X.inv.max_kin) << ",\"max_excess\":"
      << jnum(X.inv.max_excess) << ",\"max_deficit\":" << jnum(X.inv.max_deficit) << ",\"ccap_hit\":" << (X.ccap_hit ? "true" : "false") << ",\"deadline_hit\":"
      << (X.deadline_hit ? "true" : "false") << ",\"c_exhaustive\":" << (X.c_exhaustive ? "true" : "false") << ",\"layer_execs\":{";
@@ -855,6 +864,7 @@ static bool parse_cfg(const std::string & line, Config & c)
     p.e1 = num(ip + 5, tok.size(), -1);
     p.e2 = num(ip + 6, tok.size(), -1);
     c.pre = p.key();
+    for (size_t k = ip + 1; k < tok.size(); k++) c.pre_raw += (k > ip + 1 ? " " : "") + tok[k];
     g_pre[c.key()] = p;
   }
   return true;
@@ -891,6 +901,10 @@ int main(int argc, char ** argv)
     else if (a == "--dense") o.dense = atoi(nxt().c_str());
     else if (a == "--global-deadline") global_deadline = atof(nxt().c_str());
     else if (a == "--horizon") HORIZON = atol(nxt().c_str());
+    else if (a == "--squeeze") {
+      std::string q = nxt();
+      if (sscanf(q.c_str(), "%lf,%lf", &vx::SQ_LO, &vx::SQ_HI) != 2 || !(vx::SQ_LO >= 0 && vx::SQ_HI <= 1 && vx::SQ_LO <= vx::SQ_HI)) { fprintf(stderr, "bad --squeeze\n"); return 2; }
+    }
     else if (a == "--timeout") per_cfg_timeout = atof(nxt().c_str());
     else if (a == "--replay") replay = nxt();
     else {
@@ -916,6 +930,10 @@ int main(int argc, char ** argv)
     std::getline(in, l);
     o.via_gen = (l.compare(0, 9, "generator") == 0);
     if (l.find("nme2") != std::string::npos) NME_SET = 1;
+    {
+      size_t q = l.find("squeeze=");
+      if (q != std::string::npos && sscanf(l.c_str() + q + 8, "%lf,%lf", &vx::SQ_LO, &vx::SQ_HI) != 2) return 2;
+    }
     Forced f;
     size_t pos;
     double v;
@@ -926,6 +944,11 @@ int main(int argc, char ** argv)
     PortSide H;
     auto hi = g_hist.find(c.key());
     bool hist_ok = hi != g_hist.end() && H.init(hi->second.cfg, PHASE) == 0;
+    auto pre = g_pre.find(c.key());
+    if (pre != g_pre.end() && !o.via_gen) {
+      int pr = R.init(pre->second, PHASE), pp = P.init(pre->second, PHASE);
+      printf("predecessor %s initialised first on the same working objects: model_ier=%d port_err=%d\n", pre->second.key().c_str(), pr, pp);
+    }
     int ier = R.init(c, PHASE);
     int perr = P.init(c, PHASE);
     printf("config %s model_ier=%d port_err=%d\n", c.key().c_str(), ier, perr);
@@ -937,8 +960,10 @@ int main(int argc, char ** argv)
       Ev p = P.shot(f);
       printf("port : %s\n", ev_json(p).c_str());
       if (R.available) {
-        Ev r = R.shot(f);
-        printf("model: %s\nmodel_margin=%g search_margin=%g\n", ev_json(r).c_str(), std::min(d0ref::mon.min_margin, d0ref::mon.min_smargin), d0ref::mon.min_qmargin);
+        Ev r = R.shot(f, getenv("DX_DEBUG") != nullptr, -2);
+        printf("model: %s\nmodel_margin=%g search_margin=%g table_margin=%g clamp_fired=%ld\n", ev_json(r).c_str(), std::min(d0ref::mon.min_margin, d0ref::mon.min_smargin), d0ref::mon.min_qmargin, d0ref::mon.min_tmargin, d0ref::mon.clamp_fired);
+        if (getenv("DX_DEBUG"))
+          for (auto & cr : d0ref::mon.cmps) printf("  cmp draw=%d line=%d cls=%d a=%.12g b=%.12g\n", cr.draw, cr.line, cr.cls, cr.a, cr.b);
         std::string d = compare(c, r, p);
         printf("compare: %s\n", d.empty() ? "equal" : d.c_str());
       }
